@@ -97,6 +97,7 @@ struct Fiber {
 	// per-thread waiter of nsync
 	void *waiter;
 	void (*waiter_dest) (void *);
+	uint8_t tls[64];            // this thread's image of the module's THREAD_LOCAL variables
 	// flags
 	bool after_atomic;
 	int in_sem;
@@ -121,6 +122,21 @@ struct Fiber {
 static Fiber g_fib[RT_MAXT];
 static Fiber *g_cur;            // NULL on the main context
 static Ctx g_main_ctx;
+// The module's THREAD_LOCAL variables live in its section "sim_tls" (sim/platform/compiler.h).  Every fiber, and the
+// main context, has its own image of that section; the live copy is exchanged at every context switch.
+static const size_t kTlsMax = 64;
+static uintptr_t g_tls_lo, g_tls_hi;
+static uint8_t g_main_tls[kTlsMax];
+static inline uint8_t *tls_image_of (Ctx *c) {
+	if (c == &g_main_ctx) return g_main_tls;
+	return ((Fiber *) ((char *) c - offsetof (Fiber, ctx)))->tls;
+}
+static inline void switch_ctx (Ctx *from, Ctx *to) {
+	size_t n = g_tls_hi - g_tls_lo;
+	if (n != 0) memcpy (tls_image_of (from), (void *) g_tls_lo, n);
+	if (n != 0) memcpy ((void *) g_tls_lo, tls_image_of (to), n);
+	ctx_switch_keep_errno (from, to);
+}
 static sigjmp_buf g_main_env;
 static bool g_in_execute;
 
@@ -195,6 +211,10 @@ static int phdr_cb (struct dl_phdr_info *info, size_t, void *data) {
 	for (int i = 0; i < eh->e_shnum; i++) {
 		if (strcmp (shstr + sh[i].sh_name, "__sancov_cntrs") == 0 || strcmp (shstr + sh[i].sh_name, "__sancov_bools") == 0) {
 			g_cov_lo = info->dlpi_addr + sh[i].sh_addr; g_cov_hi = g_cov_lo + sh[i].sh_size;
+		}
+		if (strcmp (shstr + sh[i].sh_name, "sim_tls") == 0) {
+			g_tls_lo = info->dlpi_addr + sh[i].sh_addr; g_tls_hi = g_tls_lo + sh[i].sh_size;
+			if (g_tls_hi - g_tls_lo > kTlsMax) { fprintf (stderr, "simrt: sim_tls section larger than %zu bytes\n", (size_t) kTlsMax); abort (); }
 		}
 	}
 	for (int i = 0; i < eh->e_shnum; i++) {
@@ -314,7 +334,7 @@ static void leave_to_main () {
 	if (g_cur != NULL) {
 		Fiber *f = g_cur;
 		g_cur = NULL;
-		ctx_switch_keep_errno (&f->ctx, &g_main_ctx);
+		switch_ctx (&f->ctx, &g_main_ctx);
 		// never resumed
 		abort ();
 	}
@@ -659,7 +679,7 @@ static void switch_to (Fiber *next) {
 	g_st.switches++;
 	g_cur = next;
 	if (next->state == F_GATE) next->state = F_RUNNABLE;
-	ctx_switch_keep_errno (prev ? &prev->ctx : &g_main_ctx, &next->ctx);
+	switch_ctx (prev ? &prev->ctx : &g_main_ctx, &next->ctx);
 }
 
 // Called from a fiber that cannot continue (blocked/finished/frozen) or at a point.
@@ -685,7 +705,7 @@ static void reschedule (bool cur_ok) {
 			// nothing can move: quiescence, handled on the main context
 			Fiber *f = g_cur;
 			g_cur = NULL;
-			if (f) ctx_switch_keep_errno (&f->ctx, &g_main_ctx);
+			if (f) switch_ctx (&f->ctx, &g_main_ctx);
 			else return;   // already on main
 			// resumed later (if this fiber became enabled again)
 			return;
@@ -758,7 +778,7 @@ extern "C" void rt_yield (void) {
 		if (all) {
 			g_quiescent_livelock = true;
 			g_cur = NULL;
-			ctx_switch_keep_errno (&f->ctx, &g_main_ctx);
+			switch_ctx (&f->ctx, &g_main_ctx);
 			// resumed after the quiescence handler changed something
 			f->spin_yields = 0;
 			return;
@@ -851,16 +871,27 @@ extern "C" void rt_call_end (void) {
 }
 extern "C" void rt_set_bytes (const uint8_t *p, size_t n) { g_cfg.bytes = p; g_cfg.nbytes = n; g_bytepos = 0; }
 
+// What pthread does with a thread-specific value at thread exit: clear the slot, call the destructor with the old
+// value, and repeat (PTHREAD_DESTRUCTOR_ITERATIONS = 4) while a destructor stored a new value.  A program may call
+// this before its thread function returns to model application destructors that still use nsync AFTER nsync's own
+// destructor has run (POSIX leaves the order of destructors unspecified).
+extern "C" void rt_run_thread_destructors (void) {
+	Fiber *f = g_cur;
+	if (f == NULL) return;
+	for (int it = 0; it < 4 && f->waiter != NULL && f->waiter_dest != NULL; it++) {
+		void *w = f->waiter; f->waiter = NULL;
+		const char *api = f->api;
+		f->api = "thread_exit";
+		f->waiter_dest (w);
+		f->api = api;
+	}
+}
+
 static void fiber_main () {
 	Fiber *f = g_cur;
 	f->fn (f->arg);
 	// thread exit: run the per-thread waiter destructor, as pthread key destructors would
-	if (f->waiter != NULL && f->waiter_dest != NULL) {
-		void *w = f->waiter; f->waiter = NULL;
-		f->api = "thread_exit";
-		f->waiter_dest (w);
-		f->api = NULL;
-	}
+	rt_run_thread_destructors ();
 	f->state = F_FINISHED;
 	g_progress++;
 	g_vc[f->tid][f->tid]++;
@@ -868,7 +899,7 @@ static void fiber_main () {
 	reschedule (false);
 	// a finished fiber is never resumed; if nothing else can move we get here only via main
 	g_cur = NULL;
-	ctx_switch_keep_errno (&f->ctx, &g_main_ctx);
+	switch_ctx (&f->ctx, &g_main_ctx);
 	abort ();
 }
 static void fiber_trampoline () { fiber_main (); abort (); }
@@ -1122,6 +1153,7 @@ extern "C" void rt_panic (const char *s) {
 static inline void plain_access (uintptr_t addr, size_t size, bool is_write, uintptr_t pc) {
 	if (!g_in_execute) return;
 	if (addr >= g_cov_lo && addr < g_cov_hi) return;   // coverage counter of a fuzz build, not program data
+	if (addr >= g_tls_lo && addr < g_tls_hi) return;   // a THREAD_LOCAL variable: private to the running thread
 	g_st.plains++;
 	if (g_st.plains > 4000000) {   // a loop without scheduling points (e.g. over a corrupted list): inconclusive
 		g_st.budget_exceeded = 1;
@@ -1366,6 +1398,7 @@ extern "C" void rt_execute (const rt_config *cfg, const rt_hooks *hooks, rt_verd
 	g_quiescent_livelock = false; g_main_yields = 0;
 	g_trace.clear ();
 	g_main_waiter = NULL; g_main_waiter_dest = NULL;
+	memset (g_main_tls, 0, sizeof (g_main_tls));   // (the live copy was reset with the module's segments above)
 	g_pct_nchange = 0; g_pct_low = 500; g_clock_prio = 0;
 	if (g_cfg.strategy == RT_S_PCT) {
 		int d = std::max (1, std::min (g_cfg.pct_depth, 8));
